@@ -189,6 +189,45 @@ fn add_annots(page: &mut Page, pg: &Value, p: &Value, refs: &[oxidize_pdf::objec
     Ok(())
 }
 
+/// The logical structure tree of a tagged document (MCDoc.DocT): elements in insertion order, each under an earlier one
+fn struct_tree_of(p: &Value) -> Result<Option<oxidize_pdf::structure::StructTree>, String> {
+    use oxidize_pdf::structure::{StandardStructureType as S, StructTree, StructureElement};
+    let Some(tags) = p["tags"].as_array() else { return Ok(None) };
+    if tags.is_empty() {
+        return Ok(None);
+    }
+    let mut tree = StructTree::new();
+    for (i, t) in tags.iter().enumerate() {
+        let ty = cps_text(&t["type"]);
+        let mut e = match ty.as_str() {
+            "Document" => StructureElement::new(S::Document),
+            "Sect" => StructureElement::new(S::Sect),
+            "P" => StructureElement::new(S::P),
+            "H1" => StructureElement::new(S::H1),
+            "Span" => StructureElement::new(S::Span),
+            "Figure" => StructureElement::new(S::Figure),
+            "Div" => StructureElement::new(S::Div),
+            other => StructureElement::new_custom(other.to_string()),
+        };
+        if !t["lang"].is_null() { e = e.with_language(cps_text(&t["lang"])); }
+        if !t["alt"].is_null() { e = e.with_alt_text(cps_text(&t["alt"])); }
+        if !t["actual"].is_null() { e = e.with_actual_text(cps_text(&t["actual"])); }
+        if !t["title"].is_null() { e = e.with_title(cps_text(&t["title"])); }
+        if !t["id"].is_null() { e = e.with_id(cps_text(&t["id"])); }
+        for m in t["mcids"].as_array().map(|a| a.as_slice()).unwrap_or(&[]) {
+            e.add_mcid(m[0].as_u64().unwrap() as usize - 1, m[1].as_u64().unwrap() as u32);
+        }
+        let parent = t["parent"].as_u64().unwrap() as usize;
+        if parent == 0 {
+            if i != 0 { return Err("only the first element may be the root".into()); }
+            tree.set_root(e);
+        } else {
+            tree.add_child(parent - 1, e)?;
+        }
+    }
+    Ok(Some(tree))
+}
+
 pub fn build_doc_ex(p: &Value) -> Result<(Document, Vec<Vec<bool>>), String> {
     let mut accepted: Vec<Vec<bool>> = Vec::new();
     let mut doc = Document::new();
@@ -231,6 +270,9 @@ pub fn build_doc_ex(p: &Value) -> Result<(Document, Vec<Vec<bool>>), String> {
     }
     if !frefs.is_empty() {
         doc.set_form_manager(fm);
+    }
+    if let Some(tree) = struct_tree_of(p)? {
+        doc.set_struct_tree(tree);
     }
     Ok((doc, accepted))
 }
@@ -416,6 +458,7 @@ fn run(a: &Args) {
         out.line(&json!({"ev": "chk_pages"}));
         out.line(&json!({"ev": "chk_resources"}));
         out.line(&json!({"ev": "chk_interactive"}));
+        out.line(&json!({"ev": "chk_tagged"}));
     }
     out.flush();
 }
